@@ -68,6 +68,9 @@ inductive V where
   | mref (p : Path)
   | core (n : Name)          -- a prelude entry (opaque core-library module)
   | null                     -- what an unpacking assignment binds when the right-hand side is too short
+  /-- the function that the module at `home` (`none` = the host's scripts) exported under `key`; the
+  closure itself lives in that module's exports (`Exports.fns`) -/
+  | fn (home : Option Path) (key : Name)
   deriving DecidableEq, Repr, Inhabited
 
 inductive Err where
@@ -79,6 +82,7 @@ inductive Err where
   | access        -- "'x' not found in …" (Access on the imported value)
   | type          -- ImportAll on a value that is neither a string nor a map
   | exportEntry   -- "expected Key/Value pair to export" (export_top_level_ids + `from x import *` on a number)
+  | call          -- "expected callable function"
   deriving DecidableEq, Repr, Inhabited
 
 /-- what an import statement names: an id (`name`), or a string (`str`) that may carry leading path
@@ -160,6 +164,12 @@ inductive TAct where
   | act (a : Act)
   | defMain (mk : Nat) (body : List Act)
   | defTest (name : Name) (mk : Nat) (body : List Act)
+  /-- `export k = ||` + body: an exported function (its body prints its marker first) -/
+  | exportFn (k : Name) (mk : Nat) (body : List Act)
+  /-- `m.k()`: call the entry `k` of the map held by the id `m` (an imported module) -/
+  | callMember (m k : Name)
+  /-- `k()` -/
+  | call (k : Name)
   deriving DecidableEq, Repr, Inhabited
 
 inductive File where
@@ -185,6 +195,7 @@ structure Exports where
   data : List (Name × V) := []
   main : Option Closure := none
   tests : List (Name × Closure) := []
+  fns : List (Name × Closure) := []      -- the closures of exported functions (`V.fn _ key`)
   deriving DecidableEq, Repr, Inhabited
 
 /-- module cache entry: `None` placeholder (import in progress) or the cached exports -/
@@ -231,6 +242,12 @@ structure Frame where
   locals : List (Name × V) := []
   wild : List V := []
   exportTop : Bool := false
+  /-- the module whose top level this frame executes (`none`: a host script or a function) -/
+  self : Option Path := none
+  /-- for the frame of an exported function: the module that defined it. Non-local reads go to THAT
+  module's exports map (`FunctionContext::non_locals.module_exports`) — while `export` inside the
+  function writes to the VM's active exports map, i.e. the caller's (finding F-C18-6). -/
+  home : Option Path := none
   deriving Repr, Inhabited
 
 /-! ### association lists with `IndexMap::insert` semantics -/
@@ -266,9 +283,19 @@ def resolve (cache : Path → Option Entry) : V → Option (List (Name × V))
 def wildGet (cache : Path → Option Entry) (k : Name) (wild : List V) : Option V :=
   wild.reverse.findSome? (fun w => (resolve cache w).bind (lookup k))
 
+/-- the exports map a frame's non-local reads consult: the active one, except in the frame of an
+exported function whose defining module has completed — then that module's cached map -/
+def modExports (fr : Frame) (st : St) : Exports :=
+  match fr.home with
+  | some p =>
+    match st.cache p with
+    | some (.done e) => e
+    | _ => st.exports
+  | none => st.exports
+
 /-- wildcard imports, then the module's exports, then the prelude -/
 def nonLocal (cfg : Cfg) (fr : Frame) (st : St) (k : Name) : Option V :=
-  ((wildGet st.cache k fr.wild).orElse fun _ => lookup k st.exports.data).orElse fun _ => cfg.prelude k
+  ((wildGet st.cache k fr.wild).orElse fun _ => lookup k (modExports fr st).data).orElse fun _ => cfg.prelude k
 
 /-- `compile_load_id`: a local if one is assigned, otherwise a non-local lookup at run time -/
 def readId (cfg : Cfg) (fr : Frame) (st : St) (k : Name) : Option V :=
@@ -298,7 +325,7 @@ def importHit (cfg : Cfg) (fr : Frame) (st : St) (r : Ref) : Option V :=
   if r.segs.isEmpty then nonLocal cfg fr st r.name else none
 
 /-- runs a module unit (top level → tests → @main) in the given directory; `none` = out of fuel -/
-abbrev Runner := List Name → List TAct → St → Option (Option Err × St)
+abbrev Runner := Option Path → List Name → List TAct → St → Option (Option Err × St)
 
 def bodyOf (fs : FS) (p : Path) : List TAct :=
   match fs p.norm with
@@ -319,7 +346,7 @@ failure it is removed; in both cases the importer's exports map is put back. -/
 def loadModule (fs : FS) (rec : Runner) (p : Path) (st1 : St) : Option (Except Err V × St) :=
   let saved := st1.exports
   let st2 := emit (.enter p) { st1 with cache := upd st1.cache p (some .inProgress), exports := {} }
-  match rec p.folder (bodyOf fs p) st2 with
+  match rec (some p) p.folder (bodyOf fs p) st2 with
   | none => none
   | some (none, st3) =>
     some (.ok (.mref p),
@@ -357,6 +384,7 @@ maps succeed, anything else is a type error (strings do not occur in the fragmen
 def importValue : V → Except Err V
   | .int _ => .error .type
   | .null => .error .type
+  | .fn _ _ => .error .type
   | v => .ok v
 
 /-- the value an `import m` / `from m` root denotes: a local (compile-time decision of
@@ -536,10 +564,49 @@ def runFn (cfg : Cfg) (fs : FS) (rec : Runner) (c : Closure) (st : St) : Option 
   | none => none
   | some (r, _, st1) => some (r, st1)
 
+/-- the closure behind a function value -/
+def fnOf (st : St) (home : Option Path) (key : Name) : Option Closure :=
+  lookup key (modExports { dir := [], home := home } st).fns
+
+/-- calling a value: only functions are callable; the body runs in a frame of its own whose non-local
+reads go to the defining module, with the VM's active exports map left as it is -/
+def callValue (cfg : Cfg) (fs : FS) (rec : Runner) (v : V) (st : St) : Option (Option Err × St) :=
+  match v with
+  | .fn home key =>
+    match fnOf st home key with
+    | none => some (some .call, st)
+    | some c =>
+      match execActs cfg fs rec (Act.print c.marker :: c.body)
+          { dir := c.dir, locals := c.locals, wild := c.wild, exportTop := false, home := home } st with
+      | none => none
+      | some (r, _, st1) => some (r, st1)
+  | _ => some (some .call, st)
+
 def execTAct (cfg : Cfg) (fs : FS) (rec : Runner) (a : TAct) (fr : Frame) (st : St) :
     Option (Option Err × Frame × St) :=
   match a with
   | .act a => execAct cfg fs rec a fr st
+  | .exportFn k mk body =>
+    let v := V.fn fr.self k
+    some (none, bind k v fr,
+      setData k v { st with exports := { st.exports with fns := insert k (mkClosure fr mk body) st.exports.fns } })
+  | .callMember m k =>
+    match readId cfg fr st m with
+    | none => some (some .idNotFound, fr, st)
+    | some mv =>
+      match access st.cache mv k with
+      | .error e => some (some e, fr, st)
+      | .ok fv =>
+        match callValue cfg fs rec fv st with
+        | none => none
+        | some (r, st1) => some (r, fr, st1)
+  | .call k =>
+    match readId cfg fr st k with
+    | none => some (some .idNotFound, fr, st)
+    | some fv =>
+      match callValue cfg fs rec fv st with
+      | none => none
+      | some (r, st1) => some (r, fr, st1)
   | .defMain mk body =>
     some (none, fr, { st with exports := { st.exports with main := some (mkClosure fr mk body) } })
   | .defTest n mk body =>
@@ -586,9 +653,9 @@ def runBody (cfg : Cfg) (fs : FS) (rec : Runner) (tests : Bool) (fr : Frame) (bo
 /-- the closure inside `run_import`: module top level, `@test`s if `run_import_tests`, `@main`.
 Fuel bounds the import nesting depth. -/
 def runUnit (cfg : Cfg) (fs : FS) : Nat → Runner
-  | 0 => fun _ _ _ => none
-  | fuel + 1 => fun dir body st =>
-    runBody cfg fs (runUnit cfg fs fuel) cfg.runImportTests { dir := dir } body st
+  | 0 => fun _ _ _ _ => none
+  | fuel + 1 => fun self dir body st =>
+    runBody cfg fs (runUnit cfg fs fuel) cfg.runImportTests { dir := dir, self := self } body st
 
 /-! ### the host: `Koto::compile_and_run` calls on one runtime -/
 
